@@ -433,11 +433,15 @@ def checksumCode (modes : Nat) (odd : Bool) : Except Err Code := do
 def addressBits (digits address : Nat) : List Nat :=
   (List.range digits).map fun i => if address.testBit (digits - 1 - i) then 1 else 0
 
-/-- `_binary_address(digits, address)`: the decoder component -/
+/-- one factor of `_binary_address`: `BinaryPolynomial('w{index} + 1 + {address[index]}')` -/
+def addressFactor (digits address index : Nat) : Except Err Poly :=
+  ofString [[Tok.var index], [Tok.const 1], [Tok.const (if address.testBit (digits - 1 - index) then 1 else 0)]]
+
+/-- `_binary_address(digits, address)`: the decoder component (the loop over `index`) -/
 def binaryAddress (digits address : Nat) : Except Err Poly := do
   let one ← ofString [[Tok.const 1]]
-  ((addressBits digits address).zipIdx).foldlM (fun acc (b, i) => do
-    let f ← ofString [[Tok.var i], [Tok.const 1], [Tok.const b]]
+  (List.range digits).foldlM (fun acc i => do
+    let f ← addressFactor digits address i
     pure (imul acc f)) one
 
 def transpose (w : Nat) (M : Mat) : Mat :=
